@@ -20,9 +20,18 @@ def carried(rng, vals, poisons=(50.0, -50.0, 0.0, 1.0), p_masked=0.2, p_list=0.1
     """the same logical series as an ndarray with NaN, a list with None, or a masked array hiding a FINITE value
     under every missing element (reading under the mask must not change anything)"""
     r = rng.random()
+    present = [v for v in vals if v is not None]
+    if present and rng.random() < 0.12 and all(float(np.float32(v)) == v for v in present):
+        return arr(vals).astype(np.float32)  # float32-exact values: the same logical series in a narrower dtype
+    if present and len(present) == len(vals) and rng.random() < 0.08 and all(v == int(v) and abs(v) < 2 ** 31 for v in vals):
+        fits16 = all(-32768 <= v <= 32767 for v in vals)
+        return np.array([int(v) for v in vals], dtype=rng.choice(["int16", "int32", "int64"] if fits16 else ["int32", "int64"]))
     if r < p_masked and any(v is None for v in vals):
-        return np.ma.MaskedArray(np.array([rng.choice(poisons) if v is None else v for v in vals], dtype=float),
-                                 mask=[v is None for v in vals])
+        ma = np.ma.MaskedArray(np.array([rng.choice(poisons) if v is None else v for v in vals], dtype=float),
+                               mask=[v is None for v in vals])
+        if present and rng.random() < 0.5:
+            ma.fill_value = rng.choice(present)  # a fill value that is also a real observation elsewhere in the series
+        return ma
     if r < p_masked + p_list:
         return list(vals)
     return arr(vals)
@@ -62,7 +71,8 @@ def irregular(rng, n, t0=T0, steps=(1, 2, 3, 7, 60, 61, 900, 3600, 86400, 200000
 
 
 TIME_CARRIERS = ["dt64ns", "dt64s", "dt64ms", "dt64us", "epoch-int", "epoch-float", "epoch-list",
-                 "pydatetime", "pydatetime-utc", "timestamp-list", "dtindex", "dtindex-utc", "series", "series-utc"]
+                 "pydatetime", "pydatetime-utc", "timestamp-list", "dtindex", "dtindex-utc", "series", "series-utc",
+                 "dtindex-s", "dtindex-utc-s", "series-utc-s", "series-utc-ms", "series-ms", "dtindex-utc-us"]
 
 
 def ftimes(secs, carrier="dt64ns"):
@@ -96,6 +106,14 @@ def ftimes(secs, carrier="dt64ns"):
         return pd.Series(base.astype("datetime64[ns]"))
     if carrier == "series-utc":
         return pd.Series(pd.DatetimeIndex(base.astype("datetime64[ns]"), tz="UTC"))
+    if carrier.split("-")[-1] in ("s", "ms", "us"):
+        unit = carrier.split("-")[-1]
+        if unit == "s":
+            return None
+        idx = pd.DatetimeIndex(base.astype(f"datetime64[{unit}]"))
+        if "utc" in carrier:
+            idx = idx.tz_localize("UTC")
+        return pd.Series(idx) if carrier.startswith("series") else idx
     raise KeyError(carrier)
 
 
@@ -132,6 +150,12 @@ def times(secs, carrier="dt64ns"):
         return pd.Series(base.astype("datetime64[ns]"))
     if carrier == "series-utc":
         return pd.Series(pd.DatetimeIndex(base.astype("datetime64[ns]"), tz="UTC"))
+    if carrier.split("-")[-1] in ("s", "ms", "us"):  # pandas carriers stored in a coarser unit
+        unit = carrier.split("-")[-1]
+        idx = pd.DatetimeIndex(base.astype(f"datetime64[{unit}]"))
+        if "utc" in carrier:
+            idx = idx.tz_localize("UTC")
+        return pd.Series(idx) if carrier.startswith("series") else idx
     raise KeyError(carrier)
 
 
